@@ -68,7 +68,7 @@ Walk(b, ops, i) ==
        IF o.op = "build"
        THEN IF ObsAllowed(b, o.obs) THEN Walk(AfterBuildObs(b, o.obs), ops, i + 1)
             ELSE [step |-> i, why |-> Why(b, o.obs)]
-       ELSE Walk(Apply(b, Op(o.op, o.k, o.v)), ops, i + 1)
+       ELSE Walk(Apply(b, Op(o.op, o.k, o.v)), ops, i + 1)   \* incl. "tick": time passes, nothing changes
 
 (***************************************************************************)
 (* C10, statistical part: a "stats" record carries, for N nonces drawn by  *)
